@@ -58,7 +58,7 @@ def canonicalise(doc):
     return json.loads(text), mapping
 
 
-def staged_doc(prog, max_blocks=60):
+def staged_doc(prog, max_blocks=60, methods_too=False):
     """The *staged view* of the crate: every private function with exactly one call site, called from a function of the same type (or, for free
     functions, of the same module), that is loop-free and small (≤ 60 blocks) is spliced into its caller and removed as a function of its own — a long function split into private stages
     (`split_term`, `add_emoji_suggestions`, `add_typed_english`) is then the long function again.  Splicing a function into its only call site
@@ -69,7 +69,17 @@ def staged_doc(prog, max_blocks=60):
     from .sroa import scalarise
     prog.callgraph()
     stages = {}           # stage → sorted list of its callers
-    has_closures = {f.get("parent") for f in prog.fns.values() if f.get("kind") == "Closure"} | {f.get("root") for f in prog.fns.values() if f.get("kind") == "Closure"}
+    # functions that create a closure which captures something (a capture-free closure is the same value wherever its creator's copy stands)
+    capturing = set()
+    for k_, f_ in prog.fns.items():
+        if f_.get("kind") == "Closure":
+            continue
+        for b_ in f_["mir"]["blocks"]:
+            for st_ in b_["stmts"]:
+                if st_["k"] == "assign" and st_["rv"]["k"] == "aggregate" and st_["rv"].get("agg") == "closure" and st_["rv"].get("ops"):
+                    capturing.add(k_)
+    has_closures = {k_ for k_ in ({f.get("parent") for f in prog.fns.values() if f.get("kind") == "Closure"} |
+                                  {f.get("root") for f in prog.fns.values() if f.get("kind") == "Closure"}) if k_ in capturing}
     for k, f in prog.fns.items():
         imp = f.get("impl") or {}
         if f.get("kind") == "Closure" or f.get("no_mangle") or imp.get("trait") or len(f["mir"]["blocks"]) > max_blocks:
@@ -83,7 +93,8 @@ def staged_doc(prog, max_blocks=60):
         if len(cs) > 1:
             # a small helper shared by a few call sites (a constructor wrapper, a two-line formatter): a copy is spliced into each of them
             # (free functions only: a method with several call sites is a unit of its type that rules may know by role)
-            if len(cs) > 4 or len(f["mir"]["blocks"]) > 25 or k in has_closures or imp.get("self"):
+            # (`methods_too`: a further view in which small private methods shared by a few sites are spliced as well)
+            if len(cs) > 4 or len(f["mir"]["blocks"]) > 25 or k in has_closures or (imp.get("self") and not methods_too):
                 continue
         if any((prog.fns.get(c) or {}).get("kind") == "Closure" for c in callers):
             continue
